@@ -38,6 +38,10 @@ def configs(tier):
         for sw in ([3], [4], [1, 2], [2, 2]) + (() if tier == "quick" else ([6], [2, 3])):
             out.append(dict(kind="recover", cls=cls, swatches=list(sw)))
     out.append(dict(kind="shortcuts"))
+    # swatches held in other dtypes (raw uint8 / uint16 / integer / float32 colours): real optimiser, plain import
+    for cls in ("WhiteBalance", "ColorBalance", "AffineBalance"):
+        for dt in ("uint8", "uint16", "int64", "float32"):
+            out.append(dict(kind="recover_dtype", cls=cls, dtype=dt))
     # fitting never increases the swatch residual relative to the balance it started from (any destinations)
     for cls in ("WhiteBalance", "ColorBalance", "AffineBalance"):
         for start in ("identity", "previous_fit"):
@@ -49,8 +53,12 @@ def validate_filter(cfg):
     return cfg["kind"] in ("stages", "shortcuts")
 
 
+def validate_always(cfg):
+    return cfg["kind"] == "recover_dtype"  # evaluated on the plain import with the real optimiser
+
+
 def prepare(cfg):
-    S.set_rtol(1e-4 if cfg["kind"] == "recover" else 1e-9)
+    S.set_rtol(1e-4 if cfg["kind"] in ("recover", "recover_dtype") else 1e-9)
 
 
 def install_stubs():
@@ -113,6 +121,24 @@ def body(cfg):
     import darsia.corrections.color.colorbalance as cb
 
     CTX["calls"] = []
+    if cfg["kind"] == "recover_dtype":
+        S.claim("configuration_reached", True)
+        if S.instrumented():
+            return
+        dtp = np.dtype(cfg["dtype"])
+        rng = np.random.default_rng(11)
+        src = (rng.integers(2, 120, size=(4, 3)) * 2).astype(dtp)  # even values: halves stay exact
+        A = {"WhiteBalance": np.diag([1.5, 0.5, 1.25]), "ColorBalance": np.array([[1.5, 0.25, 0.0], [0.0, 0.5, 0.25], [0.25, 0.0, 1.25]]), "AffineBalance": np.array([[1.5, 0.25, 0.0], [0.0, 0.5, 0.25], [0.25, 0.0, 1.25]])}[cfg["cls"]]
+        b = np.array([0.5, -0.25, 0.75]) if cfg["cls"] == "AffineBalance" else 0.0
+        dst = src.astype(float) @ A + b
+        keep = src.copy()
+        bal = getattr(darsia, cfg["cls"])()
+        bal.find_balance(src, dst)
+        got = np.asarray(bal.apply_balance(src), dtype=float)
+        scale = float(np.max(np.abs(dst)))
+        S.claim("fit_on_swatches_of_this_dtype_reproduces_the_destinations", bool(np.max(np.abs(got - dst)) <= 1e-3 * scale))
+        S.claim("source_swatches_left_as_they_were", bool(np.array_equal(src, keep) and src.dtype == dtp))
+        return
     if cfg["kind"] in ("stages", "shortcuts", "residual") or S.instrumented():
         # the optimiser is a contract stub in every mode for the composition claims (the replay of a
         # counterexample needs the solver's fitted values); recovery claims run real Powell when plain
